@@ -156,3 +156,51 @@ Example C25_meta_only_example :
   meta_only [RenameTable (zs "_grist_X") (zs "Table1")] = false /\
   meta_only [AddColumn (zs "_grist_Tables") (zs "c") []; RemoveRecord (zs "_grist_Views") (Some 2)] = true.
 Proof. split; vm_compute; reflexivity. Qed.
+
+(* ---- The places where a migration reads JSON out of a Text cell (Model/MigrateSites.v: raise behaviour only,
+        compared with the real migrations on one-cell documents on every run). ---- *)
+Require Import Grist.Model.MigrateSites Grist.Proofs.MigrateSites_proofs.
+
+(* "No valid JSON makes a migration raise" is false for the current code, at each of the six sites. *)
+Definition C25_json_sites_total_statement : Prop := forall n key j, site_fn n key j = Ok tt.
+
+Theorem C25_json_sites_refuted : ~ C25_json_sites_total_statement.
+Proof. intro H. specialize (H 34 [] JNull). vm_compute in H. discriminate H. Qed.
+
+Theorem C25_json_sites_refuted_each :
+  m15_site (zs "3") (JNum (JInt 5)) = Err TypeErr /\
+  m15_site (zs "3") (JStr (zs "3")) = Err TypeErr /\
+  m16_site (JArr [JNum (JInt 1); JNum (JInt 2)]) = Err TypeErr /\
+  m16_site (JStr (zs "s")) = Err AttrErr /\
+  m16_site (JObj [(zs "visibleCol", JArr [JStr (zs "x")])]) = Err TypeErr /\
+  m29_site (JArr [JNum (JInt 1); JNum (JInt 2)]) = Err AttrErr /\
+  m34_site JNull = Err AttrErr /\
+  m34_site (JArr [JNum (JInt 1); JNum (JInt 2)]) = Err AttrErr /\
+  m35_site (JNum (JInt 5)) = Err TypeErr /\
+  m35_site (JObj [(zs "a", JNum (JInt 1))]) = Err KeyErr /\
+  m35_site (JArr [JStr (zs "Comment")]) = Err IndexErr /\
+  m45_site (JObj [(zs "timeCreated", JStr (zs "x"))]) = Err TypeErr /\
+  m45_site (JObj [(zs "timeUpdated", JNum (JFlt 9218868437227405312))]) = Err OverflowErr /\
+  m45_site (JObj [(zs "timeCreated", JNum (JFlt 9221120237041090560))]) = Err ValueErr.
+Proof. exact sites_raise. Qed.
+
+(* On the shape each migration expects (the narrowest hypothesis excluding the defect) no site raises:
+   a JSON object (15, 29, 34); an object whose visibleCol is absent or a scalar (16); an empty value or a list
+   that is not a Comment node or has 3 items (35); not an object, or an object whose timeCreated/timeUpdated are
+   absent, null, booleans or finite numbers (45). *)
+Theorem C25_json_sites_total_on_expected_shapes : forall key j,
+  (ws_obj j = true -> m15_site key j = Ok tt /\ m29_site j = Ok tt /\ m34_site j = Ok tt) /\
+  (ws_m16 j = true -> m16_site j = Ok tt) /\
+  (ws_m35 j = true -> m35_site j = Ok tt) /\
+  (ws_m45 j = true -> m45_site j = Ok tt).
+Proof.
+  intros key j. split; [intro H; split; [apply m15_ok_on_objects|split; [apply m29_ok_on_objects|apply m34_ok_on_objects]]; exact H|].
+  split; [apply m16_ok_on_shape|]. split; [apply m35_ok_on_shape|apply m45_ok_on_shape].
+Qed.
+
+Example C25_json_sites_expected_shapes_nonvacuous :
+  ws_obj (JObj [(zs "filterBar", JBool true)]) = true /\
+  ws_m16 (JObj [(zs "visibleCol", JStr (zs "A")); (zs "alignment", JStr (zs "left"))]) = true /\
+  ws_m35 (JArr [JStr (zs "Comment"); JArr [JStr (zs "Const"); JBool true]; JStr (zs "memo")]) = true /\
+  ws_m45 (JObj [(zs "text", JStr (zs "t")); (zs "timeCreated", JNum (JInt 1700000000000)); (zs "resolved", JBool true)]) = true.
+Proof. repeat split; vm_compute; reflexivity. Qed.
